@@ -444,4 +444,27 @@ theorem toSp_responseOf {d : Defaults} {cfg : Idp.Cfg} {a : Args W} {nid : NameI
   simp [sigState_ite, hdest]
   constructor <;> (split <;> simp_all)
 
+/-! ### the property's "demanded" vs the code's resolution -/
+
+open C09 in
+/-- What the property calls "demanded" is what the code resolves, given the table's defaults. -/
+theorem demanded_eq_resolve (arg cfg : Option Bool) : demanded arg cfg = resolve arg cfg false := by
+  cases arg <;> cases cfg <;> rfl
+
+open C09 in
+theorem demandedAlg_all (arg cfg : Option String) (dflt : String) :
+    (demandedAlg arg cfg).all (· == orElse arg (orElse cfg dflt)) = true := by
+  unfold demandedAlg
+  cases arg with
+  | none =>
+    cases cfg with
+    | none => simp [truthy]
+    | some t => by_cases ht : t = "" <;> simp [truthy, orElse, ht]
+  | some s =>
+    by_cases hs : s = ""
+    · cases cfg with
+      | none => simp [truthy, hs]
+      | some t => by_cases ht : t = "" <;> simp [truthy, orElse, hs, ht]
+    · simp [truthy, orElse, hs]
+
 end C09P
